@@ -14,6 +14,9 @@ type FaceCfg struct {
 	ID    uint64 `json:"id"`
 	Scope string `json:"scope"` // local | nonlocal
 	Link  string `json:"link"`  // p2p | adhoc
+	// Remote, when set, is the peer address of an outgoing unicast TCP face: the forwarder-side scope is then
+	// whatever the real transport constructor derives from it, while Scope states what it has to be.
+	Remote string `json:"remote,omitempty"`
 }
 
 type RouteCfg struct {
@@ -315,6 +318,16 @@ func (Engine) Generate(prop string, r *kit.Rand, tier string) *kit.Scenario[Conf
 	if !anyNon {
 		c.Faces[len(c.Faces)-1].Scope = "nonlocal"
 	}
+	for i := range c.Faces {
+		f := &c.Faces[i]
+		if prop == "C09" && f.Link == "p2p" && r.Chance(0.4) {
+			if f.Scope == "local" {
+				f.Remote = kit.Pick(r, []string{"tcp4://127.0.0.1:6363", "tcp4://127.8.9.10:7000", "tcp6://[::1]:6363"})
+			} else {
+				f.Remote = kit.Pick(r, []string{"tcp4://192.0.2.7:6363", "tcp4://10.0.0.1:6363", "tcp4://128.0.0.1:6363", "tcp4://126.255.255.255:1", "tcp6://[2001:db8::1]:6363", "tcp6://[fe80::1]:6363", "tcp6://[::2]:6363", "tcp4://0.0.0.0:6363"})
+			}
+		}
+	}
 	g.faces = c.Faces
 	// seed some names so that routes line up with traffic
 	for i := 0; i < 3; i++ {
@@ -365,7 +378,56 @@ func (Engine) Generate(prop string, r *kit.Rand, tier string) *kit.Scenario[Conf
 	if prop == "C07" {
 		wInterest, wData, wCap = 35, 40, 6
 	}
+	var cached []Op // C07: Data ops issued as part of a fetch (probably cached)
 	for i := 0; i < nops; i++ {
+		if prop == "C07" && r.Chance(0.45) {
+			// cache-centred traffic: fetch a name (Interest, then its Data from another face) so that the packet
+			// is admitted, or look a probably-cached name up again around its freshness boundary
+			if len(cached) == 0 || r.Chance(0.55) {
+				in := g.interest()
+				in.Hop, in.Hint, in.NextHop, in.MBF = nil, nil, 0, r.Chance(0.2)
+				if in.Nonce == 0 {
+					g.nonces++
+					in.Nonce = g.nonces
+				}
+				if in.LifeMs != 0 && in.LifeMs < 600 {
+					in.LifeMs = 0
+				}
+				d := g.data()
+				d.Name, d.TokKind = in.Name, ""
+				if in.CBP && in.Name != "/" && r.Chance(0.5) {
+					d.Name = in.Name + "/" + kit.Pick(r, comps)
+				}
+				if in.Name == "/" {
+					d.Name = g.name()
+				}
+				for d.Face == in.Face {
+					d.Face = g.face()
+				}
+				f := kit.Pick(r, []int{0, 50, 200, 200, 1000, 1000, 5000})
+				d.FreshMs = &f
+				sc.Ops = append(sc.Ops, in, d)
+				cached = append(cached, d)
+			} else {
+				d := kit.Pick(r, cached)
+				if r.Chance(0.6) && d.FreshMs != nil {
+					sc.Ops = append(sc.Ops, Op{Op: "advance", Ms: *d.FreshMs + kit.Pick(r, []int{-1, 0, 1, 1, 30})})
+					if sc.Ops[len(sc.Ops)-1].Ms < 0 {
+						sc.Ops[len(sc.Ops)-1].Ms = 0
+					}
+				}
+				in := g.interest()
+				in.Hop, in.Hint, in.NextHop = nil, nil, 0
+				in.Name, in.CBP, in.MBF = d.Name, r.Chance(0.3), r.Chance(0.6)
+				if r.Chance(0.3) {
+					if j := strings.LastIndex(d.Name, "/"); j > 0 {
+						in.Name, in.CBP = d.Name[:j], true
+					}
+				}
+				sc.Ops = append(sc.Ops, in)
+			}
+			continue
+		}
 		switch r.Weighted([]int{wInterest, wData, wAdv, wFib, wStrat, wFaceRm, wCap}) {
 		case 0:
 			sc.Ops = append(sc.Ops, g.interest())
